@@ -194,6 +194,62 @@ def dom_schema():
     return _DOMSCH[0]
 
 
+def structure_queries(S, rs, rnd, doc, a, b, slices):
+    """The pure questions of the structure module and of the content matcher, asked of a live
+    document: can_split (types_after with one entry per level, as splitting a list item passes
+    them), can_join, join_point, lift_target, find_wrapping, insert_point, drop_point,
+    fill_before, find_wrapping on a match, create_and_fill.  None of them may change anything."""
+    from prosemirror.model import Fragment
+    from prosemirror.transform import structure as ST
+
+    out = []
+
+    def q(f):
+        try:
+            x = f()
+        except (ValueError, IndexError, AttributeError, TypeError, AssertionError):
+            return None  # C12 judges the helpers' answers; here only their side effects matter
+        return x
+
+    rp = doc.resolve(a)
+    tbs = [x for x, t in rs.nodes.items() if t.inline_content and not t.inline and not t.required_attrs]
+    for depth in (1, 2, 3):
+        ta = None
+        if rp.depth >= depth and rnd.random() < 0.7:
+            ta = []
+            for lv in range(rp.depth - depth + 1, rp.depth + 1):
+                nd = rp.node(lv)
+                if lv == rp.depth and tbs and nd.inline_content and rnd.random() < 0.4:
+                    ta.append(ST.NodeTypeWithAttrs(S.nodes[rnd.choice(tbs)], None))
+                else:
+                    ta.append(ST.NodeTypeWithAttrs(nd.type, nd.attrs) if rnd.random() < 0.85 else None)
+        q(lambda: ST.can_split(doc, a, depth, ta))
+    q(lambda: ST.can_join(doc, a))
+    q(lambda: ST.join_point(doc, a, -1))
+    q(lambda: ST.join_point(doc, a, 1))
+    rng = q(lambda: rp.block_range(doc.resolve(b)))
+    names = [x for x, t in rs.nodes.items() if not t.is_text]
+    if rng is not None:
+        q(lambda: ST.lift_target(rng))
+        for nm in rnd.sample(names, min(3, len(names))):
+            w = q(lambda: ST.find_wrapping(rng, S.nodes[nm]))
+            if w:
+                out.extend(x.attrs for x in w if getattr(x, "attrs", None))
+    for nm in rnd.sample(names, min(2, len(names))):
+        q(lambda: ST.insert_point(doc, a, S.nodes[nm]))
+        q(lambda: rp.parent.content_match_at(rp.index()).find_wrapping(S.nodes[nm]))
+        nd = q(lambda: S.nodes[nm].create_and_fill())
+        if nd is not None:
+            out.append(nd)
+    if slices:
+        q(lambda: ST.drop_point(doc, a, rnd.choice(slices)))
+    frag = rnd.choice(slices).content if slices else Fragment.empty
+    f = q(lambda: rp.parent.content_match_at(rp.index()).fill_before(frag, rnd.random() < 0.5))
+    if f is not None:
+        out.append(f)
+    return out
+
+
 def parse_with_live_rules(S, rnd, pool, doc):
     """DOMParser whose rules hand the parser parts of LIVE documents, the documented way a
     caller supplies ready-made content: getContent returns the content fragment of a node of
@@ -256,7 +312,7 @@ def case(ctx, rnd, i):
 
     install_setattr()
     ids = list(schemas.TOTALITY) + ["structure", "fixed"]
-    st = opwork.setup_history(ctx, rnd, ids=ids, random_share=0.2, nslices=3, wide=0.15)
+    st = opwork.setup_history(ctx, rnd, ids=ids, random_share=0.2, nslices=3, wide=0.15, nested_attrs=rnd.random() < 0.5)
     if st is None:
         return
     sch, g, d, p, slices = st
@@ -286,7 +342,8 @@ def case(ctx, rnd, i):
             outcome = "ok"
             try:
                 if r < 0.2:
-                    name = rnd.choice(["resolve", "slice", "cut", "text_between", "nodes_between", "copy", "mark", "node_at", "check", "eq", "range_has_mark"])
+                    name = rnd.choice(["resolve", "slice", "cut", "text_between", "nodes_between", "copy", "mark", "node_at", "check", "eq", "range_has_mark",
+                                       "helpers", "helpers"])
                     a = rnd.randint(0, n)
                     b = rnd.randint(a, n)
                     if name == "resolve":
@@ -315,6 +372,8 @@ def case(ctx, rnd, i):
                     elif name == "mark":
                         m = gensteps.random_mark(sch, rnd, g)
                         res = [doc.first_child.mark(m.add_to_set(doc.first_child.marks))] if m is not None and doc.first_child is not None else []
+                    elif name == "helpers":
+                        res = structure_queries(S, rs, rnd, doc, a, b, slices)
                     elif name == "node_at":
                         res = [doc.node_at(a)]
                     elif name == "check":
